@@ -102,12 +102,17 @@ CLAIMED['C14'] = dict(level='other', design='DESIGN.md section 7 (C14)',
 CLAIMED['C20'] = dict(level='proof', design='DESIGN.md section 7 (C20)', technique=T_,
     text='System lifecycle contracts (registration with the most recent system, single initialisation, active-system check, '
          'find_assets) and late creation: the real constructor chains are executed with the system already initialised; reads of '
-         'not-yet-assigned attributes are AttributeError paths.  Three late-creation defects repaired, one (Source) recorded.',
-    note='Trusted: pyvc encoding; two-run equality late vs early creation not machine-checked; known finding: Source.')
+         'not-yet-assigned attributes are AttributeError paths.  Four late-creation defects repaired (fix: commits).',
+    note='Trusted: pyvc encoding; two-run equality late vs early creation not machine-checked.')
 CLAIMED['C17'] = dict(level='proof', design='DESIGN.md section 7 (C17)', technique=T_,
     text='PartBatcher unpack/collect/move contracts with a ghost counter of moved leaves (element-wise sequence statements), '
          'acceptance only when empty, exact batch size n, Batch routing-history loops over the ghost trace, Buffer/Sink leaf counts.',
     note='Trusted: pyvc encoding; the run-level concatenation identity is an induction over the per-activation contracts done by hand.')
+CLAIMED['C19'] = dict(level='proof', design='DESIGN.md section 7 (C19)', technique=T_,
+    text='Sensor data-series contracts (dict-of-lists family frame, alignment/capacity class invariant, per-probe ghost trace), '
+         'callback order, PeriodicSensor rescheduling and time-series trimming (defect repaired by a fix: commit), OutputPartSensor '
+         'counter automaton, Probe.probe copy semantics with behavioural subtyping for overriding probes, Cms registration.',
+    note='Trusted: pyvc encoding; induction over measurements and Cms composition by hand; float rounding of repeated addition not modelled.')
 NOT_APPLICABLE = {
     'C04': 'whole-line max-plus recurrence equality is a relational whole-history property outside contract-based '
            'verification (DESIGN.md section 8); its local timing lemmas are proved under C01/C05/C06',
